@@ -7,7 +7,7 @@ ENGINES = [
     {"name": "E3", "path": "mc/engine/choice.py + mc/instr/setorder.py", "kind_free_text": "stateless deviation-bounded choice exploration: the iteration order of every set created in antiSMASH code (AST import hook) is a choice; default run, then every single deviation, pairs, ...",
      "serves_properties": ["C13", "C17", "C18"]},
     {"name": "E1", "path": "mc/engine/core.py", "kind_free_text": "bounded exhaustive input enumeration of the real functions against set-of-bases / truth-table reference models, sharded over processes",
-     "serves_properties": ["C01", "C02", "C03", "C04", "C05", "C07", "C08", "C09", "C14", "C15", "C16", "C19", "C10"]},
+     "serves_properties": ["C01", "C02", "C03", "C04", "C05", "C07", "C08", "C09", "C14", "C15", "C16", "C19", "C10", "C12"]},
 ]
 NOT_APPLICABLE = {}
 CHECKS = {
@@ -131,4 +131,12 @@ CHECKS = {
                      "and written again: the first output must equal the second byte for byte and the canonical description (sequence, topology, every "
                      "emitted feature with qualifiers, area structure with numbers and cross references) must be unchanged.",
                 note="HMMER look-ups replaced by fixed hit tables, all other producer code is real; strand-less area locations are identified with forward ones (GenBank cannot distinguish); one open finding (C10-F1)."),
+    "C12": dict(engine="E1", level="exploration", ref="DESIGN.md 5/C12",
+                technique="bounded exhaustive enumeration of every region of the annotated-record catalogue through the real region writer and readers; extraction equality + structural isomorphism + parent-unchanged",
+                text="Every region of every catalogue record (first/later region, at a record end, origin-spanning, with origin-spanning genes, several "
+                     "areas, precursor peptides, modules) is written with Region.write_to_genbank, parsed and loaded with Record.from_biopython: the file "
+                     "holds exactly the region's sequence, every feature inside the region is present and extracts to the same bases, the loaded record has "
+                     "one region with areas numbered from 1 and the same kinds/products/membership/cores/leader-tail pieces, and the full record and the "
+                     "Biopython record passed in are unchanged.",
+                note="Aperiodic catalogue sequence so extraction equality pins coordinates; product order compared as a multiset for linearised origin-spanning regions; one open finding (C12-F1)."),
 }
